@@ -107,6 +107,19 @@ pub fn profile(name: &str) -> VecCfg {
             max_commits: 3,
             ..base
         },
+        // refused rollbacks (no usable record for the current stamp) in clean and dirty states
+        "rb_refused" => VecCfg {
+            kinds: kinds(&[
+                "push", "truncate", "commit", "rollback", "rollback_before", "stamped_write_rb",
+                "rollback_dirty",
+            ]),
+            pushes: vec![2],
+            ixs: vec![Ix::Zero, Ix::LenM1],
+            retention: 2,
+            max_len: 8,
+            max_commits: 3,
+            ..base
+        },
         "rb_dense" => VecCfg {
             kinds: kinds(&[
                 "push", "truncate", "commit", "rollback", "rollback_before", "write", "reimport",
@@ -321,10 +334,17 @@ fn plan(property: &str, tier: &str) -> Vec<(&'static str, &'static str, usize)> 
         }
         "C13" => {
             if quick {
-                vec![("bytes", "raw_refused", 5), ("pco", "dense_refused", 4)]
+                vec![
+                    ("bytes", "raw_refused", 5),
+                    ("pco", "dense_refused", 4),
+                    ("bytes", "rb_refused", 6),
+                    ("pco", "rb_refused", 5),
+                ]
             } else {
                 vec![
                     ("bytes", "raw_refused", 5),
+                    ("bytes", "rb_refused", 8),
+                    ("pco", "rb_refused", 7),
                     ("pco", "dense_refused", 5),
                     ("zerocopy", "raw_refused", 4),
                     ("lz4", "dense_refused", 4),
